@@ -174,7 +174,11 @@ pub fn transform_file(input: &str, output: &str, cfg: &TransformConfig) -> Resul
     };
 
     if output == "-" {
-        transform_stream(&mut in_reader, &mut std::io::stdout(), cfg)?;
+        let mut stdout = std::io::stdout();
+        transform_stream(&mut in_reader, &mut stdout, cfg)?;
+        // stdout is line-buffered: output without a final newline would otherwise
+        // only be written at process exit, where a write error goes unreported.
+        stdout.flush()?;
     } else {
         let mut out_temp = NamedTempFile::new()?;
         transform_stream(&mut in_reader, &mut out_temp, cfg)?;
